@@ -35,6 +35,7 @@ CONFIGS = [("none", ["CYTHON_COMPRESS_STRINGS=0"]), ("zlib", ["CYTHON_COMPRESS_S
            ("bz2", ["CYTHON_COMPRESS_STRINGS=2"]), ("lzss", ["CYTHON_COMPRESS_STRINGS=90"])]
 NLIT = 30
 FILLER = "'" + "".join("spam %d and eggs, " % (i % 7) for i in range(90)) + "'"
+FILLER_POW2 = "'" + ("".join("spam %d and eggs, " % (i % 7) for i in range(300)))[:4096] + "'"
 
 
 def _value(text):
@@ -59,8 +60,12 @@ def make_module(lits, uid, latin1):
         name = "%s_%d" % (uid, i)
         src = "def f_%s():\n    return %s\nX_%s = %s\n" % (name, lit["text"], name, lit["text"])
         items.append({"src": src, "cases": [{"expr": "M.f_%s()" % name}, {"expr": "M.X_%s" % name}], "lit": lit})
-    fill = {"src": "def f_%s_fill():\n    return %s\n" % (uid, FILLER), "cases": [{"expr": "M.f_%s_fill()" % uid}],
-            "lit": {"text": FILLER, "kinds": {"plain", "filler"}, "family": "str"}}
+    # every other module: the filler is exactly 4096 characters long, so that the longest string constant of the
+    # module (unless a generated literal is longer) has a power-of-two length - the string table stores lengths in
+    # a bit field whose width is computed from the longest one
+    filler = FILLER_POW2 if sum(map(ord, str(uid))) % 2 == 0 else FILLER
+    fill = {"src": "def f_%s_fill():\n    return %s\n" % (uid, filler), "cases": [{"expr": "M.f_%s_fill()" % uid}],
+            "lit": {"text": filler, "kinds": {"plain", "filler"}, "family": "str"}}
     return head, items + [fill]
 
 
